@@ -66,11 +66,21 @@ def forget_guarded(ctx: Ctx, chk) -> None:
                     # enclosing tests inside the loop body
                     guarded = False
                     cur = cont[1]
+
+                    def ident(test, want_is: bool) -> bool:
+                        return any(isinstance(c_, ast.Compare) and len(c_.ops) == 1 and isinstance(c_.ops[0], ast.Is if want_is else ast.IsNot) and any(from_buffer(s_) for s_ in (c_.left, c_.comparators[0])) for c_ in ast.walk(test))
+
                     while cur in parents_ and cur is not lp:
                         par = parents_[cur]
-                        if isinstance(par, ast.If) and cur in par.body:
-                            for c_ in ast.walk(par.test):
-                                if isinstance(c_, ast.Compare) and len(c_.ops) == 1 and isinstance(c_.ops[0], ast.Is) and any(from_buffer(s_) for s_ in (c_.left, c_.comparators[0])):
+                        if isinstance(par, ast.If) and cur in par.body and ident(par.test, True):
+                            guarded = True
+                        if isinstance(par, ast.If) and cur in par.orelse and ident(par.test, False):
+                            guarded = True
+                        # `if <entry> is not <sent>: continue` (or return / break / raise) in front of the removal
+                        blk = next((getattr(par, fld_) for fld_ in ("body", "orelse", "finalbody") if isinstance(getattr(par, fld_, None), list) and cur in getattr(par, fld_)), None)
+                        if blk is not None:
+                            for prev in blk[: blk.index(cur)]:
+                                if isinstance(prev, ast.If) and not prev.orelse and prev.body and isinstance(prev.body[-1], (ast.Continue, ast.Return, ast.Break, ast.Raise)) and ident(prev.test, False):
                                     guarded = True
                         cur = par
                     if guarded:
